@@ -21,15 +21,15 @@ CLAIMS = {
     'C06': ('proof', 'reference-count invariant and collection theorems on the model (DDProps/C06) tied by exhaustive short op sequences and long histories with exact state incl. counts, min_free, cache', 'Lean 4 proof + differential correspondence'),
     'C07': ('proof', 'swap/sifting/sort model with recorded set orders; theorems in DDProps/C07; exact-state correspondence', 'Lean 4 proof + differential correspondence'),
     'C08': ('proof', 'handle-registry model of dd.autoref (every method = membership tests + core op + wrap; temporaries of <= < succ low high as explicit wrap/drop pairs; drop = __del__) with the count equation ref = in-degree + live handles proved for the registry operations and, from the core specifications, for every method; exact-state correspondence after every operation on real Function objects', 'Lean 4 proof + differential correspondence'),
-    'C09': ('proof', 'model of _try_to_reorder with an arbitrary trigger position; theorems in DDProps/C09; correspondence at every trigger position', 'Lean 4 proof + differential correspondence'),
+    'C09': ('proof', 'model of _try_to_reorder with an abstract trigger (any find_or_add position, any threshold); generic transparency theorem (any body that returns its documented result or aborts having only added nodes) instantiated for ite, apply, var, quantify, the three let forms, cube, copy_bdd, add_expr (every construct), image, preimage (meaning under a neighbour proviso: known finding F4d) and chained calls; pickle load proved never to reorder; correspondence at every trigger position', 'Lean 4 proof + differential correspondence'),
     'C10': ('proof', 'support/count/pick_iter on the model (DDProps/C10) tied by exhaustive 3-variable correspondence', 'Lean 4 proof + differential correspondence'),
-    'C11': ('proof', 'copy between managers on the model (DDProps/C11) tied by correspondence over order pairs', 'Lean 4 proof + differential correspondence'),
-    'C12': ('proof', 'abstract file-content model of pickle / whole-manager / JSON dumps and loads (the harness re-reads the files the real code wrote and feeds the same content to the model); pickle load proved at full strength for any levels flag, any target order, constant and absent roots; manager round trip unconditional; JSON dump half proved, JSON reader tied by correspondence', 'Lean 4 proof + differential correspondence'),
+    'C11': ('proof', 'copy between managers on the model (DDProps/C11: same function by name for any two orders and any target content, target canonical, shared memo; copy_vars reproduces names and levels) tied by correspondence over order pairs', 'Lean 4 proof + differential correspondence'),
+    'C12': ('proof', 'abstract file-content model of pickle / whole-manager / JSON dumps and loads (the harness re-reads the files the real code wrote and feeds the same content to the model); pickle load proved at full strength for any levels flag, any target order, constant and absent roots; manager round trip unconditional; JSON dump and JSON load (both load_order values) and the JSON round trip proved for receiving managers with dynamic reordering not enabled, exact counts after every kind of load; reordering-enabled JSON targets tied by correspondence', 'Lean 4 proof + differential correspondence'),
     'C13': ('proof', 'image/preimage on the model (DDProps/C13) tied by exhaustive one-pair correspondence; imageF/image proved for any order, preimage proved under the hypotheses that exclude findings F5 and F5b (both refuted in Lean on concrete witnesses)', 'Lean 4 proof + differential correspondence'),
     'C14': ('proof', 'add_var/undeclare_vars on the model (DDProps/C14) tied by interleaving correspondence', 'Lean 4 proof + differential correspondence'),
-    'C15': ('proof', 'Lean model of dd.mdd.MDD (n-ary nodes, first edge regular, set allocator with recorded pop schedule) and of bdd_to_mdd; MInv, find_or_add / ite / apply (regenerated table) / canonicity / collection (either root sign) proved, every reachable MDD state good; bdd_to_mdd proved end to end (reorder into zones via the C07 sort theorem, cofactors via C04, MDD side) for managers with dynamic reordering not enabled, held functions preserved on every valid integer assignment; tied by exact-state correspondence and an evaluation oracle on every integer assignment', 'Lean 4 proof + regenerated tables + differential correspondence'),
+    'C15': ('proof', 'Lean model of dd.mdd.MDD (n-ary nodes, first edge regular, set allocator with recorded pop schedule) and of bdd_to_mdd; MInv, find_or_add / ite / apply (regenerated table) / canonicity / collection (either root sign) proved, every reachable MDD state good; bdd_to_mdd proved correct AND total (no assertion of the code can fire) for any setting of dynamic reordering (reorder into zones via the C07 sort theorem, cofactors follow edges only), held BDD functions preserved; tied by exact-state correspondence and an evaluation oracle on every integer assignment', 'Lean 4 proof + regenerated tables + differential correspondence'),
     'C16': ('proof', 'abstract DDDMP file model (header tables, node list, re-indexing, bottom-up rebuild, root translation) with C16_load_spec proved for every well-formed file and numbering; text files tied by correspondence (the harness writes text and abstract encodings from the same data)', 'Lean 4 proof + differential correspondence'),
-    'C17': ('proof', 'total step function: errors keep the invariant (DDProps/C17) tied by malformed-call injection', 'Lean 4 proof + differential correspondence'),
+    'C17': ('proof', 'total step functions: a rejected call keeps invariant, order, counts and every reference (DDProps/C17), reordering off (every user operation, every history) and ON (generic theorem for the decorator: failure before the request, after it, or in the retry after sifting; reordering stays enabled) + rejected add_var / undeclare_vars / swap / reorder / load change nothing; tied by malformed-call injection incl. partly valid calls and a trigger sweep of rejected calls', 'Lean 4 proof + differential correspondence'),
     'C19': ('proof', 'source-level only (the C extensions cannot be built here): translators over the four .pyx files regenerate Lean tables on every run; cApply_sound / cVocab / refTraces_balanced re-decided on them; partial by nature: relative to the line-structured reader and the hand-written C API semantics; nothing is executed', 'Lean 4 decide over tables regenerated from the .pyx sources'),
     'C18': ('proof', 'structural views on the model (DDProps/C18) tied by re-reading the exported graphs', 'Lean 4 proof + differential correspondence'),
 }
